@@ -24,6 +24,13 @@ for mf in sorted(glob.glob(V + "/seeded/*/meta.json"), key=lambda p: (int(re.sea
     cr = m.get("check_result", {})
     det = ", ".join("`%s`" % s for s in cr.get("signatures", [])[:4]) + (" ..." if len(cr.get("signatures", [])) > 4 else "") if cr.get("detected") else "**not detected**"
     seeds.append("| %s | %s | %s | %s | %s |" % (m["seed"], esc(m.get("breaks", "")), esc(m.get("needs_to_manifest", "")), det, esc(m.get("history", m.get("ported", "")))))
+notes_ = json.load(open(V + "/tools/seed_notes.json"))
+retired = ["", "Changes written by sub-agents that are **not kept** as seeds:", ""]
+for k in sorted(notes_, key=lambda k: (int(re.search(r"C(\d+)-", k).group(1)), k)):
+    if notes_[k].get("retired"):
+        retired.append("- %s (%s; needs: %s) - %s" % (k, esc(notes_[k].get("breaks", "")), esc(notes_[k].get("needs", "")), esc(notes_[k]["retired"])))
+if len(retired) > 3:
+    seeds += retired
 parts = {"known": "\n".join(known), "fixed": "\n".join(fixed), "checks": "\n".join(checks), "seeds": "\n".join(seeds)}
 s = open(V + "/DESIGN.md").read()
 for name, body in parts.items():
